@@ -100,6 +100,9 @@ type Script struct {
 	// a long-lived server has seen many sessions, which must leave nothing behind.
 	Prelude    int `json:"prelude,omitempty"`
 	PreludeBad int `json:"preludebad,omitempty"`
+	// Inject: the server starts with this election id already learnt and no primary
+	// (server.NewFake + InjectElectionID): announcements below it must not win
+	Inject *gen.ID128 `json:"inject,omitempty"`
 }
 
 // Checks selects the oracle clauses a property asserts.
@@ -301,7 +304,14 @@ func Run(sc Script, c Checks) (*ev.Verdict, *Stats) {
 	st := &Stats{Announced: map[int]bool{}}
 	w := &world{c: c, v: v, st: st, prim: -1, fold: obs.State{}, owner: map[uint64]int{}}
 	clock.Install()
-	w.s = drive.NewSrv(sc.FwdRefs, hgen.NIs[1:])
+	if sc.Inject != nil && !sc.Inject.IsZero() {
+		w.s = drive.NewSrvInjected(sc.FwdRefs, hgen.NIs[1:], sc.Inject.Proto())
+		w.cur = cp(*sc.Inject)
+		w.ids = append(w.ids, *sc.Inject)
+		v.Class("election-id-injected-before-the-first-session")
+	} else {
+		w.s = drive.NewSrv(sc.FwdRefs, hgen.NIs[1:])
+	}
 	w.m = model.New("DEFAULT", hgen.NIs[1:], sc.FwdRefs)
 	defer func() {
 		for _, s := range w.sess {
@@ -1076,7 +1086,8 @@ func Minimize(sc Script, fails func(Script) bool) Script {
 	}
 	cur := sc
 	for i := 0; i < len(cur.Steps); {
-		cand := Script{FwdRefs: cur.FwdRefs}
+		cand := cur // (keeps the script-level fields: prelude, injected id)
+		cand.Steps = nil
 		cand.Steps = append(cand.Steps, cur.Steps[:i]...)
 		cand.Steps = append(cand.Steps, cur.Steps[i+1:]...)
 		if len(cand.Steps) > 0 && fails(cand) {
@@ -1089,7 +1100,8 @@ func Minimize(sc Script, fails func(Script) bool) Script {
 		for len(cur.Steps[i].Ops) > 1 {
 			shrunk := false
 			for j := range cur.Steps[i].Ops {
-				cand := Script{FwdRefs: cur.FwdRefs, Steps: append([]Step(nil), cur.Steps...)}
+				cand := cur
+				cand.Steps = append([]Step(nil), cur.Steps...)
 				st := cand.Steps[i]
 				st.Ops = append(append([]*gen.Op(nil), cur.Steps[i].Ops[:j]...), cur.Steps[i].Ops[j+1:]...)
 				cand.Steps[i] = st
